@@ -1,4 +1,4 @@
 CONSTANTS ResetRule = "labelled-or-code" MaxMids = 1 Pairs = FALSE
 SPECIFICATION Spec
-INVARIANTS Final
+INVARIANTS ShareStatesFinal
 CHECK_DEADLOCK FALSE
